@@ -15,6 +15,7 @@ EXTENDS Naturals, Integers, Sequences, FiniteSets, TLC
 
 CONSTANTS
   MaxSteps,        \* bound on the number of owner operations after a successful load
+  BugNoTruncate,   \* TRUE = store() does not truncate an existing longer file
   BugLeakOnError   \* TRUE = pinned tree: `?` after the backend was written into the MaybeUninit leaks it (defect #6)
 
 Loaders == {"load_full", "load_mem", "load_mmap", "mmap"}
@@ -26,6 +27,8 @@ RegionKind(l) == CASE l = "load_mem" -> "heap" [] l \in {"load_mmap", "mmap"} ->
 MPad(v, u) == (u - (v % u)) % u
 
 VARIABLES
+  prior,        \* what was at the path before store(): "absent" | "shorter" | "longer"
+  fileIs,       \* ghost: "none" before store(); then "exact" (exactly the serialized bytes) | "stale-tail"
   loader, flags, cause, flen,   \* the configuration (constant during a run)
   pcl,          \* program counter of the loader
   region,       \* [kind, cap, state ("none" | "live" | "released"), releases, tailzero]
@@ -37,13 +40,14 @@ VARIABLES
   order,        \* history of release events: sequence of "S" / "B"
   steps         \* number of owner operations performed
 
-mvars == <<loader, flags, cause, flen, pcl, region, caseB, caseS, result, owner, readers, sDropped, order, steps>>
+mvars == <<prior, fileIs, loader, flags, cause, flen, pcl, region, caseB, caseS, result, owner, readers, sDropped, order, steps>>
 
 NoRegion == [kind |-> "none", cap |-> 0, state |-> "none", releases |-> 0, tailzero |-> TRUE]
 
 MInit(L, F, C, N) ==
+  /\ prior \in {"absent", "shorter", "longer"} /\ fileIs = "none"
   /\ loader \in L /\ flags \in F /\ cause \in C /\ flen \in N
-  /\ pcl = "start" /\ region = NoRegion /\ caseB = FALSE /\ caseS = FALSE
+  /\ pcl = "store" /\ region = NoRegion /\ caseB = FALSE /\ caseS = FALSE
   /\ result = "pending" /\ owner = "none" /\ readers = 0 /\ sDropped = FALSE /\ order = <<>> /\ steps = 0
 
 \* what ε-copy deserialization of the region's bytes yields, by failure cause
@@ -62,13 +66,21 @@ Fin(res) == result' = res /\ pcl' = "done"
 \* the length of the file on disk: `flen` for a complete file, 0 for an empty one
 EffLen == IF cause = "empty" THEN 0 ELSE flen
 
+\* Serialize::store: File::create truncates whatever was there, BufWriter, serialize, flush
+\* (BugNoTruncate: the file is opened without truncation, a longer old file leaves a stale tail)
+Store ==
+  /\ pcl = "store"
+  /\ fileIs' = IF prior = "longer" /\ BugNoTruncate THEN "stale-tail" ELSE "exact"
+  /\ pcl' = "start"
+  /\ UNCHANGED <<prior, loader, flags, cause, flen, region, caseB, caseS, result, owner, readers, sDropped, order, steps>>
+
 \* Deserialize::load_mem pre-check: align_of::<Self>() > align_of::<MemoryAlignment>()
 PreCheck ==
   /\ pcl = "start"
   /\ IF loader = "load_mem" /\ cause = "bigalign"
      THEN Fin("AlignmentError") /\ UNCHANGED <<region, caseB, caseS, owner>>
      ELSE pcl' = "stat" /\ UNCHANGED <<result, region, caseB, caseS, owner>>
-  /\ UNCHANGED <<loader, flags, cause, flen, readers, sDropped, order, steps>>
+  /\ UNCHANGED <<prior, fileIs, loader, flags, cause, flen, readers, sDropped, order, steps>>
 
 \* metadata() / File::open
 Stat ==
@@ -76,7 +88,7 @@ Stat ==
   /\ IF cause = "missing"
      THEN Fin(IF loader = "load_full" THEN "FileOpenError" ELSE "Io") /\ UNCHANGED <<region, caseB, caseS, owner>>
      ELSE pcl' = (IF loader = "load_full" THEN "deser" ELSE "alloc") /\ UNCHANGED <<result, region, caseB, caseS, owner>>
-  /\ UNCHANGED <<loader, flags, cause, flen, readers, sDropped, order, steps>>
+  /\ UNCHANGED <<prior, fileIs, loader, flags, cause, flen, readers, sDropped, order, steps>>
 
 \* std::alloc::alloc / MmapOptions::map_mut / MmapOptions::with_file().map()
 Alloc ==
@@ -88,19 +100,19 @@ Alloc ==
         ELSE /\ region' = [kind |-> RegionKind(loader), cap |-> cap, state |-> "live", releases |-> 0,
                            tailzero |-> (loader = "mmap")]
              /\ pcl' = (IF loader = "mmap" THEN "wrap" ELSE "read") /\ UNCHANGED result
-  /\ UNCHANGED <<loader, flags, cause, flen, caseB, caseS, owner, readers, sDropped, order, steps>>
+  /\ UNCHANGED <<prior, fileIs, loader, flags, cause, flen, caseB, caseS, owner, readers, sDropped, order, steps>>
 
 \* file.read_exact(&mut bytes[..file_len]) then bytes[file_len..].fill(0); the region is still a local:
 \* an error here drops it normally
 ReadFill ==
   /\ pcl = "read"
   /\ region' = [region EXCEPT !.tailzero = TRUE] /\ pcl' = "wrap"
-  /\ UNCHANGED <<loader, flags, cause, flen, caseB, caseS, result, owner, readers, sDropped, order, steps>>
+  /\ UNCHANGED <<prior, fileIs, loader, flags, cause, flen, caseB, caseS, result, owner, readers, sDropped, order, steps>>
 
 \* addr_of_mut!((*ptr).1).write(backend): from here on the region is owned by the uninitialised case
 Wrap ==
   /\ pcl = "wrap" /\ caseB' = TRUE /\ pcl' = "deser"
-  /\ UNCHANGED <<loader, flags, cause, flen, region, caseS, result, owner, readers, sDropped, order, steps>>
+  /\ UNCHANGED <<prior, fileIs, loader, flags, cause, flen, region, caseS, result, owner, readers, sDropped, order, steps>>
 
 \* Self::deserialize_eps(mem)? (load_full: deserialize_full of the file)
 Deser ==
@@ -113,18 +125,18 @@ Deser ==
             /\ IF caseB /\ ~BugLeakOnError
                THEN region' = [region EXCEPT !.state = "released", !.releases = @ + 1] /\ order' = Append(order, "B")
                ELSE UNCHANGED <<region, order>>
-  /\ UNCHANGED <<loader, flags, cause, flen, caseB, owner, readers, sDropped, steps>>
+  /\ UNCHANGED <<prior, fileIs, loader, flags, cause, flen, caseB, owner, readers, sDropped, steps>>
 
 \* Ok(uninit.assume_init())
 Return ==
   /\ pcl = "ret" /\ Fin("ok") /\ owner' = "stack"
-  /\ UNCHANGED <<loader, flags, cause, flen, region, caseB, caseS, readers, sDropped, order, steps>>
+  /\ UNCHANGED <<prior, fileIs, loader, flags, cause, flen, region, caseB, caseS, readers, sDropped, order, steps>>
 
 (* ---- the owner ---- *)
 Owned == result = "ok" /\ owner \notin {"none", "dropped"} /\ ~sDropped
 OwnerStep(o) ==
   /\ Owned /\ readers = 0 /\ steps < MaxSteps /\ owner' = o /\ steps' = steps + 1
-  /\ UNCHANGED <<loader, flags, cause, flen, pcl, region, caseB, caseS, result, readers, sDropped, order>>
+  /\ UNCHANGED <<prior, fileIs, loader, flags, cause, flen, pcl, region, caseB, caseS, result, readers, sDropped, order>>
 Move == OwnerStep(owner)                      \* a move changes the address of the case, nothing else
 BoxIt == owner = "stack" /\ OwnerStep("box")
 Unbox == owner = "box" /\ OwnerStep("stack")
@@ -132,27 +144,29 @@ SendTo == OwnerStep("thread")                 \* moved into another thread
 SendBack == owner = "thread" /\ OwnerStep("stack")
 ShareArc == owner = "stack" /\ OwnerStep("arc")
 ReaderEnter == /\ Owned /\ owner = "arc" /\ readers < 2 /\ readers' = readers + 1
-               /\ UNCHANGED <<loader, flags, cause, flen, pcl, region, caseB, caseS, result, owner, sDropped, order, steps>>
+               /\ UNCHANGED <<prior, fileIs, loader, flags, cause, flen, pcl, region, caseB, caseS, result, owner, sDropped, order, steps>>
 ReaderLeave == /\ Owned /\ readers > 0 /\ readers' = readers - 1
-               /\ UNCHANGED <<loader, flags, cause, flen, pcl, region, caseB, caseS, result, owner, sDropped, order, steps>>
+               /\ UNCHANGED <<prior, fileIs, loader, flags, cause, flen, pcl, region, caseB, caseS, result, owner, sDropped, order, steps>>
 Unshare == owner = "arc" /\ readers = 0 /\ OwnerStep("stack")   \* Arc::try_unwrap
 
 \* drop(MemCase): fields in declaration order: the structure, then the backend
 DropS ==
   /\ Owned /\ readers = 0 /\ sDropped' = TRUE /\ order' = Append(order, "S")
-  /\ UNCHANGED <<loader, flags, cause, flen, pcl, region, caseB, caseS, result, owner, readers, steps>>
+  /\ UNCHANGED <<prior, fileIs, loader, flags, cause, flen, pcl, region, caseB, caseS, result, owner, readers, steps>>
 DropB ==
   /\ result = "ok" /\ sDropped /\ owner # "dropped"
   /\ owner' = "dropped" /\ order' = Append(order, "B")
   /\ region' = IF region.state = "live" THEN [region EXCEPT !.state = "released", !.releases = @ + 1] ELSE region
-  /\ UNCHANGED <<loader, flags, cause, flen, pcl, caseB, caseS, result, readers, sDropped, steps>>
+  /\ UNCHANGED <<prior, fileIs, loader, flags, cause, flen, pcl, caseB, caseS, result, readers, sDropped, steps>>
 
 MNext ==
-  \/ PreCheck \/ Stat \/ Alloc \/ ReadFill \/ Wrap \/ Deser \/ Return
+  \/ Store \/ PreCheck \/ Stat \/ Alloc \/ ReadFill \/ Wrap \/ Deser \/ Return
   \/ Move \/ BoxIt \/ Unbox \/ SendTo \/ SendBack \/ ShareArc \/ ReaderEnter \/ ReaderLeave \/ Unshare
   \/ DropS \/ DropB
 
 ---------------------------------------------------------------------------
+(* C08: store writes exactly the serialized bytes, whatever was at the path *)
+StoreExact == pcl # "store" => fileIs = "exact"
 (* C08: the region a successful loader returns *)
 RegionSound ==
   (result = "ok" /\ owner # "dropped" /\ loader # "load_full") =>
